@@ -6,7 +6,7 @@ from concurrent.futures import ThreadPoolExecutor
 import common, lbtool, owntool
 
 C02_KINDS = ('view-corrupt', 'free-while-view-live', 'content-not-intact', 'impl-crash')
-C03_KINDS = ('hang:', 'double-free', 'foreign-free', 'caller-memory-freed', 'caller-memory-written', 'freed-block-in-chain', 'private-copy-in-pool-block', 'impl-crash')
+C03_KINDS = ('hang:', 'double-free', 'free-of-unconsumed-data', 'free-while-view-live', 'foreign-free', 'caller-memory-freed', 'caller-memory-written', 'freed-block-in-chain', 'private-copy-in-pool-block', 'impl-crash')
 KNOWN_TAG = 'D4-split-block'
 HARNESS_TIMEOUT = int(os.environ.get('VERIF_HARNESS_TIMEOUT', '900'))
 MODEL_VISIBLE = ('double-free', 'free-while-view-live', 'freed-block-in-chain', 'foreign-free', 'caller-memory-freed')
